@@ -346,13 +346,31 @@ def main(argv=None):
         print("HARNESS-ERROR property=%s (witness replay)" % prop_id)
         return 2
 
+    # ---- cases that must run in the (non-daemonic) main process, e.g. joblib n_jobs > 1 ----------------------
+    parent_result = None
+    pc = getattr(mod, "parent_cases", None)
+    if pc is not None and not violations:
+        try:
+            wd = getattr(mod, "WATCHDOG", {"quick": 30, "thorough": 120})[a.tier]
+            Hp = Harness(mod, a.tier, active, max(wd, 60))
+            try:
+                for case in pc(a.tier):
+                    Hp.evaluate(case)
+            except ViolationFound:
+                pass
+            parent_result = Hp.result("violation" if Hp.best_failure else "ok", 0.0)
+        except HarnessAbort:
+            sys.stderr.write((Hp.harness_error or "") + "\n")
+            print("HARNESS-ERROR property=%s (parent cases)" % prop_id)
+            return 2
+
     # ---- generated search --------------------------------------------------
     n_cases = a.cases if a.cases is not None else mod.BUDGET[a.tier]
     nw = max(1, a.workers)
     jobs = [(prop_id, a.tier, seed, i, nw, n_cases, tuple(active)) for i in range(nw)]
     results = []
     harness_err = None
-    if not violations:
+    if not violations and not (parent_result and parent_result["status"] == "violation"):
         ctxmp = mp.get_context("fork")
         with ctxmp.Pool(nw) as pool:
             for r in pool.imap_unordered(worker, jobs):
@@ -364,6 +382,8 @@ def main(argv=None):
                 if r["status"] == "violation":
                     pool.terminate()
                     break
+    if parent_result is not None:
+        results.append(parent_result)
     if harness_err:
         sys.stderr.write(harness_err + "\n")
         print("HARNESS-ERROR property=%s" % prop_id)
